@@ -74,6 +74,7 @@ type CloseCli struct {
 func init() {
 	Register(&Scenario{
 		Name:     "close",
+		OptsToo:  true,
 		LazyToo:  true,
 		DescToo:  true,
 		Property: "C18",
